@@ -65,7 +65,8 @@ def family(rnd):
     spec = [{'t': 'source', 'ids': ids, 'fields': {'image': 's100', 'g1': 't020', 'g2': 't021'}}]
     if rnd.random() < 0.5:
         spec.append({'t': 'transform', 'fields': {'image': ['s101', ['image']]}, 'params': {}, 'inherit': True})
-    kind = rnd.choice(['group', 'group', 'byvalue-filter', 'filter', 'merge', 'split', 'shared-layer', 'shared-layer', 'join', 'ids-under-group', 'ids-under-filter', 'constant', 'columns-merge'])
+    kind = rnd.choice(['group', 'group', 'byvalue-filter', 'filter', 'merge', 'split', 'shared-layer', 'shared-layer', 'join', 'ids-under-group', 'ids-under-filter', 'constant', 'columns-merge',
+                       'silent-keyword', 'wrapped-function', 'array-constant', 'shared-disk-layer'])
     out = {'kind': kind, 'ids': ids, 'variants': []}
     base = lambda: P.build(spec, [])[0]      # noqa: E731
 
@@ -120,6 +121,59 @@ def family(rnd):
               ('source s100 >> shared >> group by g1', lambda: src('s100') >> shared >> GroupBy('g1')),
               ('source s105 >> shared >> group by g1', lambda: src('s105') >> shared >> GroupBy('g1'))]
         fields = ['image']
+    elif kind == 'silent-keyword':
+        # keyword bindings written in non-alphabetical order, one of them Silent: the OTHER one decides the value and must decide the hash
+        from connectome.interface.nodes import Silent
+
+        def mk(spacing_sym):
+            src = P.build([{'t': 'source', 'ids': ids, 'fields': {'image': 's100', 'spacing': spacing_sym, 'verbose': 't021'}}], [])[0]
+            return src >> Transform(out=Function(P.sym('s150'), 'image', verbose=Silent('verbose'), spacing='spacing'), __inherit__=True)
+        vs = [('spacing from t020', lambda: mk('t020')), ('spacing from t021', lambda: mk('t021')), ('spacing from t020 again', lambda: mk('t020'))]
+        fields = ['out']
+    elif kind == 'wrapped-function':
+        # a predicate / grouping function and the same function under a decorator written with functools.wraps are different functions
+        import functools
+
+        def negate(f):
+            @functools.wraps(f)
+            def g(*a, **k):
+                return not f(*a, **k)
+            return g
+
+        def exclaim(f):
+            @functools.wraps(f)
+            def g(*a, **k):
+                return f(*a, **k) + '!'
+            return g
+        pred = P._named_pred(P.sym('t031'), ['image'])
+        vs = [('Filter(even)', lambda: base() >> Filter(pred)), ('Filter(negate(even)), negate written with functools.wraps', lambda: base() >> Filter(negate(pred))),
+              ('GroupBy(by1)', lambda: base() >> GroupBy(by1)), ('GroupBy(exclaim(by1)), exclaim written with functools.wraps', lambda: base() >> GroupBy(exclaim(by1))),
+              ('Filter(even) again', lambda: base() >> Filter(pred))]
+        fields = ['image']
+    elif kind == 'array-constant':
+        # array arguments with the same bytes and dtype and different shapes
+        import numpy as np
+        import pickpool
+        flat = [rnd.randint(0, 3) for _ in range(6)]
+        mk = lambda shape: (lambda: base() >> pickpool.Correlate(kernel=np.array(flat).reshape(shape)))      # noqa: E731
+        vs = [('kernel 1x6', mk((1, 6))), ('kernel 6x1', mk((6, 1))), ('kernel 2x3', mk((2, 3))), ('kernel 3x2', mk((3, 2))), ('kernel 1x6 again', mk((1, 6)))]
+        fields = ['image']
+    elif kind == 'shared-disk-layer':
+        # ONE CacheToDisk object behind pipelines whose constants are ==-equal and of different types (2, 2.0, True): each is served its own entries
+        import tempfile
+        from stacks import Scale
+        from connectome import CacheToDisk
+        from connectome.serializers import PickleSerializer
+        root = tempfile.mkdtemp(prefix='collide_')
+        out['cleanup'] = root
+        disk = CacheToDisk.simple('a', root=root, serializer=PickleSerializer())
+
+        def src():
+            return P.build([{'t': 'source', 'ids': ids, 'fields': {'image': 's100', 'a': 's100'}}], [])[0]
+        consts = rnd.sample([2, 2.0, True, 1, 1.0], 3)
+        vs = [(f'Scale({c!r}) >> the shared CacheToDisk', (lambda c=c: src() >> Scale(factor=c) >> disk)) for c in consts]
+        out['reference'] = {f'Scale({c!r}) >> the shared CacheToDisk': (lambda c=c: src() >> Scale(factor=c)) for c in consts}
+        fields = ['a']
     elif kind == 'constant':
         # constructor arguments that are not hashable and print alike
         import pickpool
